@@ -5,7 +5,7 @@ import re
 from collections import defaultdict
 
 from .guards import prov, op_prov, bool_condition, switch_edges, control_fields
-from .lib import (op_local, op_const, op_place, place_local, place_fields, rvalue_places, rvalue_operands,
+from .lib import (fn_key, op_local, op_const, op_place, place_local, place_fields, rvalue_places, rvalue_operands,
                   strip_generics, last_seg, AnchorError)
 
 EXPLANATION = (
@@ -214,6 +214,16 @@ def run(ctx):
             mvars = [v["name"] for v in a["variants"]]
             fwd = variant_map(F, new, G_new, src_is_cached=False, dst_adt=p)
             bwd = variant_map(F, back, G_back, src_is_cached=True, dst_adt=None, self_adt=p)
+            if fwd is None and bwd is not None:
+                # no source enum: `new` takes no enum of the workspace, so the mirror's variants are an encoding choice
+                # (e.g. inline payload vs. table index); the load side, which does match on every variant, is checked
+                from .lib import strip_generics as _sg
+                src_enums = [t for t in (_sg(new.local_ty(i) or "") for i in range(1, new.argc + 1))
+                             if t in F.adts and F.adts[t]["kind"] == "enum" and not is_cached(t)]
+                if not src_enums:
+                    ctx.ob("R20.2", "shape:" + short, True, "mirror enum without a source enum (its variants are an encoding choice); "
+                           "%s matches on every variant" % back.name, new.where())
+                    continue
             if fwd is None or bwd is None:
                 unsupported.append(short)
                 key = "shape:" + short
@@ -296,6 +306,7 @@ def run(ctx):
         ok = own and none_only
         msg = "cache consulted for the function's own crate: %s; source lowering only when the crate has no cache: %s" % (own, none_only)
     ctx.ob("R20.4", "priv_function_with_body_multi_lowering:cache-before-source", ok, msg, pml.where())
+    _interning_tables(ctx, F)
     _controls(ctx, F, cached, methods)
 
 
@@ -364,6 +375,44 @@ def variant_map(F, fn, group, src_is_cached, dst_adt, self_adt=None):
         # loading: destination enum = the most common adt among dests
         pass
     return adt, out, catch, panics
+
+
+def _interning_tables(ctx, F):
+    """R20.5: the de-duplicating tables of the cache saving contexts (`x_ids: Map<Id, IdCached>` + `x_ids_lookup: Vec<..>`)
+    store, for a key, a payload that is a function of that key alone.  A routine that interns under key K a payload taken
+    from another argument shares one cache entry between values that only agree on K."""
+    n = 0
+    for p, f in sorted(F.fns.items()):
+        if not f.body or "::cache::" not in p or f.kind == "Closure":
+            continue
+        pushes = [c for c in f.calls() if c.name() == "push" and c.args and any(t.startswith("f:") and t.endswith("_lookup") for t in op_prov(f, c.args[0], 8))]
+        inserts = [c for c in f.calls() if c.name() == "insert" and len(c.args) >= 3 and any(t.startswith("f:") and t.endswith("_ids") for t in op_prov(f, c.args[0], 8))]
+        if not pushes or not inserts:
+            continue
+        n += 1
+        ctx.analysed(f)
+        # parameters: the context(s), the key (flows into the map key), the others
+        key_params, other = set(), set()
+        for i in range(1, f.argc + 1):
+            ty = f.local_ty(i) or ""
+            if "Context" in ty or ty.startswith("&") and "dyn" in ty:
+                continue
+            fl = f.flows_to(i) | {i}
+            if any(op_local(ins.args[1]) in fl for ins in inserts):
+                key_params.add(i)
+            else:
+                other.add(i)
+        bad = []
+        for c in pushes:
+            src = f.derives_from(op_local(c.args[1])) | {op_local(c.args[1])} if op_local(c.args[1]) is not None else set()
+            for i in sorted(other):
+                if i in src:
+                    bad.append("`%s` (parameter %d)" % (f.local_name(i) or "?", i))
+        ctx.ob("R20.5", "interning:%s" % fn_key(p), bool(key_params) and not bad,
+               "the payload stored under the key is computed from the key alone" if key_params and not bad else
+               ("the entry interned under the key is built from %s, which is not the key: every later value with the same key silently gets the payload "
+                "of the first one" % ", ".join(sorted(set(bad))) if bad else "no parameter flows into the key of the table"), f.where())
+    ctx.floor("interning routines of the cache saving contexts", n, 20)
 
 
 def _controls(ctx, F, cached, methods):
